@@ -25,6 +25,10 @@ ASSUME = [
 
 def gc_replay(path):
     ops = [l.strip() for l in open(path) if l.strip() and not l.startswith("#") and not l.startswith("correspondence")]
+    if ops and ops[0].startswith("gc-deep"):
+        rc, out, err = run([HBIN] + ops[0].split(), stdin=b"", timeout=300, mem_gb=6)
+        print(out.strip(), err.strip()[-300:], f"rc={rc}")
+        return 0 if "deep=ok" in out else 1
     text = "\n".join(ops) + "\n"
     hl, ml, rc, herr = run_pair("gc", text, harness_env={"GC_TRUTH": "1"})
     bad = False
@@ -112,8 +116,22 @@ def run_c16(tier, seed):
                       "replay_text": "correspondence L-gc with exact trace/edge counters (Model/Gc.lean vs src/impl_/gc_node.rs) no longer checks; cost theorems of Props/C16.lean no longer apply to the code\n"
                                      f"# family {meta[k][:3] if k >= 0 else '?'}; first disagreement at line {j}: impl `{h}` model `{m}`\n" + ("\n".join(scripts[k]) if k >= 0 else "") + "\n",
                       "signature": None})
+    # the collector's walks recurse along dependency paths: a long chain on a stack of ordinary size (8 MiB; the harness
+    # itself runs on 1 GiB) — a separate process, because a stack overflow aborts it
+    deep = {}
+    for (n, mb) in ((100000, 8), (100000, 1024)):
+        try:
+            rc, hout, herr = run([HBIN, "gc-deep", str(n), str(mb)], stdin=b"", timeout=300, mem_gb=6)
+        except Exception as e:
+            rc, hout, herr = 124, "", "timeout"
+        deep[f"chain of {n} objects on a {mb} MiB stack"] = "collected" if "deep=ok" in hout else f"process died (rc={rc}): {herr.strip().splitlines()[-1] if herr.strip() else ''}"
+        if "deep=ok" not in hout:
+            viols.append({"what": f"the collection of an abandoned cyclic chain of {n} objects on a {mb} MiB stack does not terminate normally: the recursive marking overflows the stack (rc={rc})",
+                          "found_input": True, "signature": f"class:collector-recursion-stack-{mb}MiB",
+                          "replay_text": f"# harness gc-deep {n} {mb}: builds a chain of {n} collector objects closed into a cycle, drops every handle, collects on a thread with a {mb} MiB stack\n"
+                                         f"# outcome: rc={rc} {herr.strip()[-300:]}\ngc-deep {n} {mb}\n"})
     big = max(table, key=lambda r: r["objects"]) if table else {}
-    cov = {"evaluations": nscripts, "distinct_nontrivial": len({(m[0], m[1], m[2]) for m in meta if m[2] >= 2}),
+    cov = {"deep_chains": deep, "evaluations": nscripts, "distinct_nontrivial": len({(m[0], m[1], m[2]) for m in meta if m[2] >= 2}),
            "rule": "graph families (ladder of diamonds, cyclic ladder, fan-out, fan-in, chain, ring, random shared DAG) x candidate-root choices (all dropped / top first / keep bottom / keep top) x sizes, smallest sizes first (the run stops at the first size that violates the bound; every harness run is capped at 6 GB and 2-15 min); non-trivial = size >= 2; each built on the real GcCtx and on the model, trace()/callback counters compared exactly after each collection",
            "samples": [table[0], big] if table else [],
            "correspondence": {"level": "L-gc (brief observations: counters exact)", "scripts": nscripts, "model_vs_impl_disagreements": disagree_total},
